@@ -635,6 +635,50 @@ class MergeAssignments(ast.NodeTransformer):
         return node
 
 
+class ElseAfterReturn(ast.NodeTransformer):
+    """`if c: ...return` followed by rest  ->  `if c: ...return else: rest` (the rest of the block moves into an else arm)"""
+
+    def _fix(self, body):
+        for i, s_ in enumerate(body):
+            if isinstance(s_, ast.If) and not s_.orelse and s_.body and isinstance(s_.body[-1], (ast.Return, ast.Raise)) and i < len(body) - 1:
+                rest = self._fix(body[i + 1:])
+                return body[:i] + [ast.If(test=s_.test, body=s_.body, orelse=rest)]
+        return body
+
+    def visit_FunctionDef(self, node):
+        self.generic_visit(node)
+        node.body = self._fix(node.body)
+        return node
+
+
+class NamedConditions(ast.NodeTransformer):
+    """`if <call or comparison>:` -> `cond_k = <test>; if cond_k:` for plain if statements (not elif arms, not loops)"""
+
+    def __init__(self):
+        self.k = 0
+
+    def _fix(self, body):
+        out = []
+        for s_ in body:
+            for fld in ('body', 'orelse', 'finalbody'):
+                sub = getattr(s_, fld, None)
+                if isinstance(sub, list) and sub and isinstance(sub[0], ast.stmt) and not isinstance(s_, (ast.FunctionDef, ast.ClassDef)):
+                    if fld == 'orelse' and isinstance(s_, ast.If) and len(sub) == 1 and isinstance(sub[0], ast.If):
+                        continue        # elif chain: leave
+                    setattr(s_, fld, self._fix(sub))
+            if isinstance(s_, ast.If) and isinstance(s_.test, (ast.Compare, ast.Call)) and not any(isinstance(x, (ast.NamedExpr, ast.Yield)) for x in ast.walk(s_.test)):
+                self.k += 1
+                nm = 'cond_%d' % self.k
+                out.append(ast.Assign(targets=[ast.Name(id=nm, ctx=ast.Store())], value=s_.test, type_comment=None))
+                s_.test = ast.Name(id=nm, ctx=ast.Load())
+            out.append(s_)
+        return out
+
+    def visit_FunctionDef(self, node):
+        node.body = self._fix(node.body)
+        return node
+
+
 def _keywordify(repo):
     import os
     from .normalize import signatures, pick_signature
@@ -673,6 +717,14 @@ def equivalent_variants(repo='/repo'):
         t = MergeAssignments().visit(ast.parse(src))
         return ast.unparse(ast.fix_missing_locations(t)) + '\n'
 
+    def elseret(src):
+        t = ElseAfterReturn().visit(ast.parse(src))
+        return ast.unparse(ast.fix_missing_locations(t)) + '\n'
+
+    def named(src):
+        t = NamedConditions().visit(ast.parse(src))
+        return ast.unparse(ast.fix_missing_locations(t)) + '\n'
+
     def micro(src):
         t = MicroEdits().visit(ast.parse(src))
         return ast.unparse(ast.fix_missing_locations(t)) + '\n'
@@ -706,4 +758,6 @@ def equivalent_variants(repo='/repo'):
             ('a redundant local for every returned call result', explain),
             ('local aliases for attributes of self read twice or more (non-generator methods)', alias),
             ('adjacent constant assignments merged into tuple assignments', merge),
-            ('every argument after the first passed by keyword in calls of package functions', _keywordify(repo))]
+            ('every argument after the first passed by keyword in calls of package functions', _keywordify(repo)),
+            ('the code after an `if ...: return/raise` moved into an else arm', elseret),
+            ('every call / comparison tested by a plain `if` named by a local first', named)]
